@@ -41,6 +41,14 @@ POOL: dict[str, list[str]] = {
     "generic": [
         R + "from typing import TypeVar, Sequence, Union\nT = TypeVar('T')\nU = TypeVar('U')\n\ndef first(x: Sequence[T], y: Sequence[U]) -> Union[T, U]:\n    return x[0]\n\ndef g() -> None:\n    reveal_type(first([1, 'a'], (None, 2.0)))\n    reveal_type(first('ab', [b'x']))\n    first(1, 2)\n",
     ],
+    # twins: the same program up to the order in which union / Literal members are written inside generic arguments;
+    # checked one after the other by one Checker they must still render exactly as they do alone
+    "gentwin": [
+        R + "from typing import Union, Optional\n\ndef f(xs: list[Union[int, str]], d: dict[str, Union[int, None]]) -> None:\n    for x in xs:\n        reveal_type(x)\n    reveal_type(xs[0])\n    reveal_type(d['k'])\n    xs.append(b'no')\n    d['z'] = 1.5\n",
+        R + "from typing import Union, Optional\n\ndef f(xs: list[Union[str, int]], d: dict[str, Union[None, int]]) -> None:\n    for x in xs:\n        reveal_type(x)\n    reveal_type(xs[0])\n    reveal_type(d['k'])\n    xs.append(b'no')\n    d['z'] = 1.5\n",
+        R + "from typing import Union\nfrom typing_extensions import Literal\n\ndef f(t: tuple[Literal['a', 'b', 1], ...], s: set[Union[bytes, float]]) -> None:\n    for x in t:\n        reveal_type(x)\n    for y in s:\n        reveal_type(y)\n    reveal_type(t[0])\n",
+        R + "from typing import Union\nfrom typing_extensions import Literal\n\ndef f(t: tuple[Literal[1, 'b', 'a'], ...], s: set[Union[float, bytes]]) -> None:\n    for x in t:\n        reveal_type(x)\n    for y in s:\n        reveal_type(y)\n    reveal_type(t[0])\n",
+    ],
     "narrow": [
         R + "from typing import Union, Optional\n\ndef f(x: Union[int, str, None, list[int], tuple[str, ...]]) -> None:\n    if not x:\n        reveal_type(x)\n    elif isinstance(x, (int, list)):\n        reveal_type(x)\n    else:\n        reveal_type(x)\n    while x:\n        reveal_type(x)\n        x = None\n",
     ],
